@@ -71,7 +71,7 @@ mod h {
         };
     }
     rename_names!(rename_2, 2, ["zz", "pz", "b1", "b2"]);
-    rename_names!(rename_3, 3, ["bth"]);
+    rename_names!(rename_3, 3, ["bth", "cfa"]);
     rename_names!(rename_4, 4, ["args"]);
     rename_names!(rename_5, 5, ["other"]);
 
@@ -146,6 +146,19 @@ mod h {
         kani::cover!(sel == 1 && r.is_ok(), "defaulted field absent");
         kani::cover!(sel == 3, "unrenamed key sent");
         core::mem::forget(r);
+    }
+
+    /// An argument attribute wrapped in `cfg_attr(<true predicate>, ..)` lands on the field as well.
+    #[kani::proof]
+    #[kani::unwind(8)]
+    fn field_attribute_in_cfg_attr() {
+        let v: [u64; 2] = kani::any();
+        let with: Result<ExecMsg, E> = decode(Msg { name: "cfa", body: Obj { keys: ["c", "p"], vals: [num(v[0]), num(v[1])] } });
+        let without: Result<ExecMsg, E> = decode(Msg { name: "cfa", body: Obj { keys: ["p"], vals: [num(v[1])] } });
+        assert!(matches!(&with, Ok(ExecMsg::Cfa { c, p }) if *c == v[0] && *p == v[1]));
+        assert!(matches!(&without, Ok(ExecMsg::Cfa { c, p }) if *c == 0 && *p == v[1]), "the default makes the field optional on the wire");
+        kani::cover!(true);
+        core::mem::forget((with, without));
     }
 
     // @PLAYBACK h@
